@@ -559,6 +559,19 @@ def filterBondsByMask (mask : List Bool) (bs : List Bond) : List Bond :=
 def applyMask {α : Type} (mask : List Bool) (xs : List α) : List α :=
   ((mask.zip xs).filter (·.1)).map (·.2)
 
+/-! ## The box (`cell` category) -/
+
+/-- `set_structure`: "PDBx files can only store one box for all models → use first box":
+the `cell` category is computed (`unitcell_from_vectors`) from `array.box[0]` of a stack. -/
+def writeCell (boxes : Option (List Tok)) : Option Tok :=
+  match boxes with
+  | none => none
+  | some bs => bs.head?
+
+/-- `get_structure(model=None)`: the one box of the file is repeated for every model. -/
+def readBoxes (cell : Option Tok) (modelCount : Nat) : Option (List Tok) :=
+  cell.map (List.replicate modelCount)
+
 /-! ## `get_structure` -/
 
 structure ReadOpts where
@@ -581,7 +594,8 @@ def readStructure (ccd : Ccd) (b : Block) (o : ReadOpts) : Except Err Structure 
   let (rows, coords) ← match o.model with
     | none => do
       let first := groups.headD []
-      if first.length * count != b.site.length then throw Err.invalidFile
+      -- repaired: every model (not only the total) must have the length of the first one
+      if groups.any (fun g => g.length != first.length) then throw Err.invalidFile
       pure (first, chunks first.length count (b.site.map (·.xyz)))
     | some m => do
       if m == 0 then throw Err.valueError
